@@ -21,12 +21,16 @@ NoneV     == EnumV("None", FALSE, NoPayload)
 \* A struct value: its type name and a value per field, in the order the literal listed them (which is
 \* the order it is printed in, and which equality ignores).
 StructV(name, fs) == [k |-> "Struct", n |-> name, fs |-> fs]     \* fs: sequence of [n |-> field, v |-> value]
+\* A dictionary: string keys, kept sorted by key and without duplicates (the canonical form: equality and
+\* the printed form of the implementation do not depend on insertion order).
+DictV(kvs) == [k |-> "Dict", kv |-> kvs]                          \* kvs: sequence of [k |-> key string, v |-> value]
 CloV(ps, b, env, rt, line) == [k |-> "Clo", ps |-> ps, b |-> b, env |-> env, rt |-> rt, line |-> line]
 FunV(name) == [k |-> "Fun", n |-> name]
 
 IsInt(v)  == v.k = "Int"
 IsStr(v)  == v.k = "Str"
 IsList(v) == v.k = "List"
+IsDict(v) == v.k = "Dict"
 IsBool(v) == v.k = "Enum" /\ ~v.has /\ v.n \in {"True", "False"}
 IsTrue(v) == v.n = "True"
 
@@ -49,7 +53,45 @@ ValEq(a, b) ==
          [] a.k = "Struct" ->
               a.n = b.n /\ Len(a.fs) = Len(b.fs)
               /\ \A i \in 1..Len(a.fs) : \E j \in 1..Len(b.fs) : a.fs[i].n = b.fs[j].n /\ ValEq(a.fs[i].v, b.fs[j].v)
+         [] a.k = "Dict" ->
+              Len(a.kv) = Len(b.kv)
+              /\ \A i \in 1..Len(a.kv) : a.kv[i].k = b.kv[i].k /\ ValEq(a.kv[i].v, b.kv[i].v)
          [] OTHER -> FALSE   \* closures and function references: never equal here
+
+(* The name of a value's runtime type: what method dispatch goes by         *)
+(* (src/eval.rs eval_method_call: type_representation of the receiver).      *)
+TypeName(v) ==
+  CASE v.k = "Int" -> "Int"
+    [] v.k = "Str" -> "String"
+    [] v.k = "List" -> "List"
+    [] v.k = "Tuple" -> "Tuple"
+    [] v.k = "Dict" -> "Dict"
+    [] v.k = "Struct" -> v.n
+    [] v.k = "Enum" -> (CASE v.n \in {"True", "False"} -> "Bool"
+                          [] v.n = "Unit" -> "Unit"
+                          [] v.n \in {"Some", "None"} -> "Option"
+                          [] v.n \in {"Ok", "Err"} -> "Result"
+                          [] OTHER -> "E1")          \* the one user enum of generated programs
+    [] OTHER -> "Fun"
+
+(* Byte order on the strings used as dictionary keys.  TLC has no order on  *)
+(* strings, so it is defined through the rank of each character in the      *)
+(* ASCII-ordered alphabet below (keys of generated programs use no others). *)
+KeyChars == " 0123456789ABCDEFGHIJKLMNOPQRSTUVWXYZ_abcdefghijklmnopqrstuvwxyz"
+CharRank(c) == CHOOSE i \in 1..Len(KeyChars) : SubSeq(KeyChars, i, i) = c
+RECURSIVE StrLessFrom(_, _, _)
+StrLessFrom(a, b, i) ==
+  IF i > Len(b) THEN FALSE                       \* b is a prefix of a (or equal)
+  ELSE IF i > Len(a) THEN TRUE                   \* a is a proper prefix of b
+  ELSE LET x == CharRank(SubSeq(a, i, i))  y == CharRank(SubSeq(b, i, i)) IN
+       IF x # y THEN x < y ELSE StrLessFrom(a, b, i + 1)
+StrLess(a, b) == StrLessFrom(a, b, 1)
+
+\* d with key k bound to v (replacing an existing binding), and d without key k
+DictRemoveKey(kvs, k) == SelectSeq(kvs, LAMBDA e : e.k # k)
+DictSetKey(kvs, k, v) ==
+  LET rest == DictRemoveKey(kvs, k) IN
+  SelectSeq(rest, LAMBDA e : StrLess(e.k, k)) \o <<[k |-> k, v |-> v]>> \o SelectSeq(rest, LAMBDA e : StrLess(k, e.k))
 
 (* Printed form (Value::display / string_repr).  Strings here are plain:    *)
 (* the escaping rules are specified separately in Display.tla over          *)
@@ -57,12 +99,16 @@ ValEq(a, b) ==
 RECURSIVE Disp(_)
 RECURSIVE DispSeq(_, _)
 RECURSIVE DispFields(_, _)
+RECURSIVE DispKVs(_, _)
 DispSeq(xs, i) ==
   IF i > Len(xs) THEN ""
   ELSE Disp(xs[i]) \o (IF i < Len(xs) THEN ", " \o DispSeq(xs, i + 1) ELSE "")
 DispFields(fs, i) ==
   IF i > Len(fs) THEN ""
   ELSE fs[i].n \o ": " \o Disp(fs[i].v) \o (IF i < Len(fs) THEN ", " \o DispFields(fs, i + 1) ELSE "")
+DispKVs(kvs, i) ==
+  IF i > Len(kvs) THEN ""
+  ELSE "\"" \o kvs[i].k \o "\" => " \o Disp(kvs[i].v) \o (IF i < Len(kvs) THEN ", " \o DispKVs(kvs, i + 1) ELSE "")
 Disp(v) ==
   CASE v.k = "Int"   -> ToString(v.v)
     [] v.k = "Str"   -> "\"" \o v.v \o "\""
@@ -71,6 +117,7 @@ Disp(v) ==
                         ELSE "(" \o DispSeq(v.v, 1) \o ")"
     [] v.k = "Enum"  -> IF v.has THEN v.n \o "(" \o Disp(v.p) \o ")" ELSE v.n
     [] v.k = "Struct" -> v.n \o "{ " \o DispFields(v.fs, 1) \o " }"
+    [] v.k = "Dict"  -> "Dict[" \o DispKVs(v.kv, 1) \o "]"
     [] OTHER         -> "<fun>"
 
 (* Integer arithmetic on mathematical integers, guarded by a magnitude      *)
